@@ -2036,16 +2036,22 @@ def mixin_api(rng, name, mixins, rules_mode, own_iam=None, add_iam=False, transp
     return api
 
 
-def prefix_packages_api(rng, name):
+def prefix_packages_api(rng, name, layout=None):
     """Target files in several packages under one version whose names are character prefixes of one another
     (x.v1.admin / x.v1.admin_types / x.v1.adm): the root package must not depend on which one a set yields first (C10)."""
     api = Api(name)
     ver = "v1"
     base = f"vp.{name}.{ver}"
-    subs = rng.choice([["admin", "admin_types"], ["admin_types", "admin"], ["adm", "admin", "admin_types"], ["core", "core_v2_types"]])
+    subs = rng.choice([["admin", "admin_types"], ["admin_types", "admin"], ["adm", "admin", "admin_types"], ["core", "core_v2_types"],
+                       # sibling sub-packages next to a root file: the ORDER of the response files must not depend on a set either
+                       ["", "birds", "fish", "mammals"], ["", "zeta", "alpha", "mid", "beta"]])
+    if layout == "siblings":
+        subs = rng.choice([["", "birds", "fish", "mammals"], ["", "zeta", "alpha", "mid", "beta"]])
+    elif layout == "prefix":
+        subs = rng.choice([["admin", "admin_types"], ["admin_types", "admin"], ["adm", "admin", "admin_types"], ["core", "core_v2_types"]])
     files = []
     for i, sub in enumerate(subs):
-        pkg = f"{base}.{sub}"
+        pkg = f"{base}.{sub}" if sub else base
         f = File(f"{pkg.replace('.', '/')}/things{i}.proto", pkg, deps=list(STD_DEPS) + [x.pb.name for x in files])
         m = f.message(f"Thing{i}")
         m.field("name", "string")
